@@ -165,7 +165,7 @@ def build_valid(seed, avoid=()):
     cfg = luagen.Cfg(max_depth=2 + ch.below(2), max_stmts=1 + ch.below(6), budget=40 + ch.below(100), avoid=avoid)
     model, tags = luagen.gen_program(ch, cfg)
     toks, stmts = luagen.render(model, ch)
-    lay = luagen.layout(toks, ch, mode)
+    lay = luagen.layout(toks, ch, mode, allow_cr=True)
     indent = ch.below(9)
     v = ch.below(24)
     via = 'lib'
@@ -202,6 +202,8 @@ def part_valid(ctx):
             labs.append('line_scoped')
         if not src.endswith(b'\n'):
             labs.append('no_final_newline')
+        if b'\r' in src.replace(b'\r\n', b''):
+            labs.append('bare_cr_line_ends')
         depth = max([s[4] for s in stmts] + [0])
         if depth >= 1:
             labs.append('nested')
@@ -391,7 +393,7 @@ def vacuity(total, tier):
     msgs = []
     for lab in ('comments', 'line_scoped', 'no_final_newline', 'nested', 'mode_free', 'mode_lines', 'via_cli',
                 'via_cli_overwrite', 'degenerate', 'partial_parse', 'mut_newer_syntax', 'mut_token_deleted',
-                'paren_head'):
+                'paren_head', 'bare_cr_line_ends'):
         if total.classes.get(lab, 0) < 3:
             msgs.append('class %s seen %d times' % (lab, total.classes.get(lab, 0)))
     return msgs
